@@ -12,6 +12,7 @@ structure DState where
   freed : Bool := false
   fileCheck : Bool := false      -- this line ends with the file-content check of the fd/filename/FILE sinks
   sysScript : List SysAns := []
+  sinkReg : Bool := false        -- the sink is a regular file (its content is read back at the end)
   sawFatal : Bool := false       -- an earlier call returned fatal (the handle may be in state FATAL)
   everBad : Bool := false        -- some earlier call saw a failing callback invocation
   sawFilter : Bool := false      -- a `filter` op was issued (the filter chain is freed when open fails)
@@ -109,10 +110,12 @@ def monitorLine (obs : String) (freeOnFatal : Bool := false) : String :=
   if bad && okish then "VIOLATED write-fault-not-reported: " ++ obs else obs
 
 /-- `archive_write_open_fd` / `_filename` (regular file: unpadded by default) / `_FILE`. -/
-def openSink (d : DState) (h : Handle) (regularFile : Bool) : DState × String :=
-  let h' := { h with fileSink := regularFile }
+def openSink (d : DState) (h : Handle) (byFdOrName : Bool) (kind : String) : DState × String :=
+  -- S_ISCHR / S_ISBLK / S_ISFIFO: /dev/null, a FIFO, a pipe; a socket or a regular file is neither
+  let pads := kind == "fifo" || kind == "null" || kind == "pipe"
+  let h' := { h with fileSink := byFdOrName, sinkPads := pads }
   let w0 : DW := .fd { sc := d.sysScript }
-  finish { d with w := w0 } "open" (apiOpen driverWriter w0 h')
+  finish { d with w := w0, sinkReg := kind == "reg" } "open" (apiOpen driverWriter w0 h')
 
 def stepLine0 (d : DState) (op obs : String) : DState × String :=
   let ws := LA.words op
@@ -174,9 +177,12 @@ def stepLine0 (d : DState) (op obs : String) : DState × String :=
       let r := setBil h n
       ({ d with h := some r.2 }, "bil " ++ stName r.1)
   | ["open"] => finish d "open" (apiOpen driverWriter d.w h)
-  | ["openfd"] => openSink d h true
-  | ["openfile"] => openSink d h true
-  | ["openFILE"] => openSink d h false
+  | ["openfd"] => openSink d h true "reg"
+  | ["openfile"] => openSink d h true "reg"
+  | ["openFILE"] => openSink d h false "reg"
+  | ["openFILE", "reg"] => openSink d h false "reg"
+  | ["openfd", k] => if k == "reg" || k == "fifo" || k == "null" || k == "pipe" || k == "sock" then openSink d h true k else (d, "bad-op")
+  | ["openfile", k] => if k == "reg" || k == "fifo" || k == "null" then openSink d h true k else (d, "bad-op")
   | ["openmem", blk, sz] =>
     match blk.toNat?, sz.toNat? with
     | some b, some s =>
@@ -222,7 +228,7 @@ def stepLine0 (d : DState) (op obs : String) : DState × String :=
   | ["finish"] => finish d "finish" (apiFinishEntry driverWriter d.w h)
   | ["close"] => finish d "close" (apiClose driverWriter d.w h)
   | ["free"] =>
-    let isFd := match d.w with | .fd _ => true | _ => false
+    let isFd := match d.w with | .fd _ => d.sinkReg | _ => false
     let r := finish { d with fileCheck := isFd } "free" (apiFree driverWriter d.w h)
     ({ r.1 with freed := true, fileCheck := false }, r.2)
   | _ => (d, "bad-op")
